@@ -139,6 +139,33 @@ fn configs(thorough: bool) -> Vec<Config> {
             coupled: true,
         },
     ];
+    // two grouped resources, requests mixing strict and non-strict entries in both orders
+    out.push(Config {
+        name: "twogrouped",
+        desc: ResourceDescriptor::new(vec![groups("cpus", &[2, 2, 2]), groups("gpus", &[2, 2])], Default::default()),
+        names: vec!["cpus", "gpus"],
+        requests: vec![
+            rq(&[("cpus", "compact!", 20_000), ("gpus", "compact", 10_000)]),
+            rq(&[("cpus", "compact", 20_000), ("gpus", "compact!", 20_000)]),
+            rq(&[("cpus", "tight!", 20_000), ("gpus", "tight", 20_000)]),
+            rq(&[("cpus", "tight", 30_000), ("gpus", "tight!", 10_000)]),
+            rq(&[("cpus", "compact!", 15_000), ("gpus", "compact", 5_000)]),
+            rq(&[("cpus", "scatter", 30_000)]),
+            rq(&[("cpus", "compact", 10_000)]),
+            rq(&[("gpus", "scatter", 20_000)]),
+            rq(&[("gpus", "compact", 10_000)]),
+            rq(&[("cpus", "scatter", 20_000), ("gpus", "compact!", 20_000)]),
+        ],
+        coupled: false,
+    });
+    // very unequal groups
+    out.push(Config {
+        name: "groups26",
+        desc: ResourceDescriptor::new(vec![groups("cpus", &[2, 6])], Default::default()),
+        names: vec!["cpus"],
+        requests: grouped_requests("cpus", &[10_000, 20_000, 25_000, 30_000, 60_000, 70_000]),
+        coupled: false,
+    });
     if thorough {
         out.push(Config {
             name: "groups4x2",
